@@ -118,7 +118,7 @@ def collapse_diff(prog, rng, wd):
         if b is None:
             return {"build_error": err, "variant": v}
         bins.append((v, b))
-    datas = [inputs.random_walk(dfa, rng, rng.randint(1, 20)) for _ in range(12)]
+    datas = [inputs.random_walk(dfa, rng, rng.randint(1, 20)) for _ in range(12)] + inputs.extra(prog)
     reps, _ = inputs.byte_classes(dfa)
     datas += [bytes([r]) for r in reps[:24]]
     n = 0
@@ -133,6 +133,58 @@ def collapse_diff(prog, rng, wd):
             elif (lines, status) != ref[:2]:
                 return {"mismatch": True, "input": d.hex(), "variant_a": ref[2], "variant_b": v,
                         "trace_a": ref[0][-6:], "trace_b": lines[-6:], "status": [ref[1], status]}
+    return {"runs": n}
+
+
+def canon_trace(lines):
+    """What must not depend on the optimisation level: the hook calls in order (their names), the
+    result codes in order, and the final dump (intermediate dumps may lag by one step)."""
+    out = []
+    for l in lines:
+        head = l.split(" | ")[0].split()
+        if not head:
+            continue
+        if head[0] == "hook":
+            out.append("hook " + head[1])
+        elif head[0] in ("feed", "end", "start"):
+            out.append(" ".join(head[:2]))
+            if head[1] in ("DONE", "FAIL") or head[1].startswith("FINISH_"):
+                # calls after a terminal result are only specified for FAIL (C10): stop here
+                return out, l.split(" | ")[-1]
+    final = lines[-1].split(" | ")[-1] if lines else ""
+    return out, final
+
+
+def level_diff(prog, rng, wd):
+    """The binaries built at -O0, -O2 and -O3 against the one built at -O1, on the same inputs."""
+    from nmfu_api import compile_program
+    import cdriver, inputs
+    bins = []
+    dfa = None
+    for i, v in enumerate((["-O1"], ["-O0"], ["-O2"], ["-O3"])):
+        o = compile_program(prog["src"], v + prog["args"] + ["-findirect-start-ptr"])
+        if not o.ok:
+            return None
+        if dfa is None:
+            dfa = o.dctx.dfa
+        b, err = cdriver.build(o, os.path.join(wd, f"l{i}"))
+        if b is None:
+            return {"build_error": err, "variant": v}
+        bins.append((v, b))
+    datas = [inputs.random_walk(dfa, rng, rng.randint(1, 24), p_follow=0.93) for _ in range(10)] + inputs.extra(prog)
+    n = 0
+    for d in datas:
+        ops = ["start", "feedy:" + d.hex()] + (["end"] if prog["feats"].get("eof") else [])
+        ref = None
+        for v, b in bins:
+            lines, status, err = b.run(ops)
+            n += 1
+            key = (canon_trace(lines), status)
+            if ref is None:
+                ref = (key, v, lines)
+            elif key != ref[0]:
+                return {"mismatch": True, "input": d.hex(), "variant_a": ref[1], "variant_b": v,
+                        "trace_a": ref[2][-6:], "trace_b": lines[-6:]}
     return {"runs": n}
 
 
@@ -225,9 +277,20 @@ def main():
         rng = random.Random(ck.seed)
         accepted = [byname[r["name"]] for r in results if r["status"] == "ok"]
         rng.shuffle(accepted)
-        ncol = 10 if ck.tier == "quick" else 80
+        # (boundary and corpus programs first: they carry directed inputs)
+        accepted.sort(key=lambda p: 0 if p.get("origin") in ("boundary", "corpus") else 1)
+        ncol = 30 if ck.tier == "quick" else 150
         col_runs = 0
+        lvl_runs = 0
         for prog in accepted[:ncol]:
+            d = level_diff(prog, rng, wd)
+            if d is not None:
+                if d.get("mismatch") or d.get("build_error"):
+                    ck.report(f"{population.src_hash(prog['src'])}/levels",
+                              f"binaries of {prog['name']} built at different optimisation levels disagree",
+                              {"program": prog["src"], "args": prog["args"], **d})
+                else:
+                    lvl_runs += d["runs"]
             d = collapse_diff(prog, rng, wd)
             if d is None:
                 continue
@@ -238,6 +301,7 @@ def main():
             else:
                 col_runs += d["runs"]
         stats["collapse_binary_runs"] = col_runs
+        stats["level_binary_runs"] = lvl_runs
     finally:
         shutil.rmtree(wd, ignore_errors=True)
     if not ck.samples:
